@@ -91,9 +91,8 @@ def _do_event(w, ev, model, cfg, rec):
             if not keys:
                 keys = [w.get_key()]
             k = keys[0] if which == 'first' else keys[-1]
-            n = sum(1 for x in model.out if x[0].startswith('u'))
-            txid = 'u' + hashlib.sha256(b'c08|%d|%d' % (seed, len(model.out))).hexdigest()[1:]
-            txid = hashlib.sha256(txid.encode()).hexdigest()
+            model.n_added = getattr(model, 'n_added', 0) + 1
+            txid = hashlib.sha256(b'c08|utxo|%d|%d' % (seed, model.n_added)).hexdigest()
             w.utxo_add(k.address, value, txid, 0, confirmations=5)
             model.out[(txid, 0)] = {'value': value, 'address': k.address, 'spent': False, 'conf': 5}
         elif kind == 'utxos_update':
@@ -156,11 +155,40 @@ def _do_event(w, ev, model, cfg, rec):
                     del model.out[op]
             still = set()
             for o in model.txs:
-                still.update(o['inputs'])
+                if o['sent']:       # a stored-but-unsent transaction does not consume anything
+                    still.update(o['inputs'])
             for op in t['inputs']:
                 if op in model.out and op not in still:
                     model.out[op]['spent'] = False
                 model.sent_consumed.discard(op)
+        elif kind == 'delete_funding':
+            sent = [t for t in model.txs if t['sent']]
+            if not sent:
+                return w, 'noop'
+            ftxid = sent[-1]['inputs'][0][0]
+            if any(t['txid'] == ftxid for t in model.txs):
+                return w, 'noop'      # funded by one of the wallet's own transactions: covered by delete_last
+            w.transaction_delete(ftxid)
+            for op in list(model.out):
+                if op[0] == ftxid:
+                    del model.out[op]
+        elif kind == 'utxo_add_spent':
+            # the provider (or the user) reports an outpoint again that a stored sent transaction already consumed
+            sent = [t for t in model.txs if t['sent']]
+            if not sent:
+                return w, 'noop'
+            op = sent[-1]['inputs'][0]
+            val = sent[-1]['in_values'][0]
+            addr = None
+            for k in w.keys(depth=w.key_depth) if w.scheme != 'single' else w.keys():
+                pass
+            rows = [i for i in w.transaction(sent[-1]['txid']).inputs if (i.prev_txid.hex(), i.output_n_int) == op]
+            addr = rows[0].address
+            w.utxo_add(addr, val, op[0], op[1], confirmations=7)
+            if op not in model.out:
+                model.out[op] = {'value': val, 'address': addr, 'spent': True, 'conf': 7}
+            else:
+                model.out[op]['conf'] = 7
         elif kind == 'reopen':
             path = w.db_uri
             wh.close(w, None, remove=False)
@@ -208,6 +236,8 @@ def sub_hist(case):
     labels = []
     try:
         with wh.ForcedRandom(None, 'uniform', 'identity'):
+            for ev in cfg.get('prefix', []):
+                w, _ = _do_event(w, ev, model, cfg, rec)
             for ev in hist:
                 w, lab = _do_event(w, ev, model, cfg, rec)
                 labels.append(lab)
@@ -324,6 +354,12 @@ def run(ctx):
     ev_base = [['utxo_add', 'first', 5000], ['utxo_add', 'last', 100000], ['new_key'], ['send_ext'], ['send_own'],
                ['sweep'], ['delete_last'], ['reopen'], ['utxos_update'], ['import_unsent'], ['send_nobc'], ['get_key']]
     cfgs = [{'kind': 'hd', 'wt': 'segwit', 'seed': seed, 'events': ev_base}]
+    # start from non-initial states too: a wallet already funded through the provider / by hand
+    ev_funded = [['send_ext'], ['send_own'], ['sweep'], ['delete_last'], ['delete_funding'], ['utxo_add_spent'],
+                 ['utxos_update'], ['reopen'], ['import_unsent'], ['utxo_add', 'first', 5000]]
+    cfgs.append({'kind': 'hd', 'wt': 'segwit', 'seed': seed, 'events': ev_funded, 'prefix': [['utxos_update']]})
+    cfgs.append({'kind': 'hd', 'wt': 'legacy', 'seed': seed, 'events': ev_funded,
+                 'prefix': [['utxo_add', 'first', 100000], ['utxo_add', 'last', 70000]]})
     small = [['utxo_add', 'first', 100000], ['send_ext'], ['send_own'], ['sweep'], ['delete_last'], ['utxos_update'],
              ['import_unsent']]
     others = [('hd', 'legacy'), ('single', 'segwit'), ('ms22', 'segwit')] + \
